@@ -25,7 +25,11 @@ def main(chk):
     states = trans = nwalks = steps_total = nontriv = 0
     samples, runs = [], []
     cov = {}
-    for L in variants:
+    # (listener, bounds): the last plans trade handles/rows for MORE faults per history (failed reconnect attempts,
+    # an ordinary error after a disconnect + recovery, ...)
+    multi = dict(MaxH=2, MaxRows=1, MaxDepth=7, MaxFaults=3) if chk.quick else dict(MaxH=3, MaxRows=1, MaxDepth=9, MaxFaults=3)
+    plans = [(L, base) for L in variants] + [("none", multi)] + ([] if chk.quick else [("todisc", multi), ("nopool", multi)])
+    for L, base in plans:
         consts = dict(base, Faults={tlc.q("disc"), tlc.q("err")}, L=tlc.q(L))
         cfgt = tlc.cfg(constants=consts, init="InitEmit", invariants=INVS, properties=PROPS, view="View",
                        action_constraints=["Emit"], constraints=["Depth"])
@@ -53,7 +57,7 @@ def main(chk):
                           "real Connection diverges from ConnFault.tla (listener %s): %s" % (L, m["mismatch"]), m)
         nwalks += len(walks) + len(extra)
         steps_total += steps
-        runs.append(dict(listener=L, distinct=r.distinct, generated=r.generated, depth=r.depth, edges=len(g.edges),
+        runs.append(dict(listener=L, bounds=dict(base), distinct=r.distinct, generated=r.generated, depth=r.depth, edges=len(g.edges),
                          fault_fired_edges=fired, plan=plan, wall_s=round(r.wall, 1)))
         w = max(walks, key=lambda w: sum(1 for ei in w if g.edges[ei][1]["f"] != "none"))
         samples.append({"listener": L, "walk": ["%s%s%s->%s" % (g.edges[ei][1]["a"], "(%d)" % g.edges[ei][1]["arg"] if g.edges[ei][1]["arg"] else "",
@@ -69,4 +73,4 @@ def main(chk):
              checker_cmd="tlc ConnFault.tla (VIEW View, ACTION_CONSTRAINT Emit) per listener variant"),
         assumptions=["SQLite only; fault = next DBAPI-level call raises (disconnect: connection stays dead)",
                      "pool clock virtualised so 'opened before the failure' never depends on wall-clock resolution",
-                     "bounds: %s" % base])
+                     "bounds: see tlc_runs[*].bounds"])
